@@ -75,6 +75,7 @@ class Effect:
         return "Effect(%s.%s%r -> %r)" % (self.recv, self.method, self.args, self.result)
 
 
+_PINNED = []        # z3 recycles AST ids of freed terms: every term used as a cache key is kept alive here
 _consts_cache = {}
 
 
@@ -108,6 +109,7 @@ def consts_of(t):
             stack.append(e.body())
     r = frozenset(out)
     _consts_cache[k] = r
+    _PINNED.append(t)
     return r
 
 
@@ -152,6 +154,7 @@ def bool_skeleton(t):
     else:
         r = z3.Bool("atom!%d" % k)
     _skel_cache[k] = r
+    _PINNED.append(t)
     return r
 
 
@@ -175,6 +178,7 @@ def has_string_terms(t):
                     r = True
                     break
     _hasstr_cache[k] = r
+    _PINNED.append(t)
     return r
 
 
@@ -214,6 +218,7 @@ def string_abstract(t):
     else:
         r = _abstract_atom(t, k)
     _sabs_cache[k] = r
+    _PINNED.append(t)
     return r
 
 
@@ -232,16 +237,28 @@ def _stru():
     return _StrU, _lenU
 
 
-def abstraction_axioms():
-    """facts about the abstraction symbols: lengths are non-negative, distinct literals are distinct"""
+_stru_by_name = {}
+
+
+def abstraction_axioms(terms):
+    """facts about the abstraction symbols occurring in `terms`: lengths are non-negative, distinct literals are
+    distinct and have their real length"""
     out = []
     sort, lenU = _stru()
-    for c in _stru_consts.values():
-        out.append(lenU(c) >= 0)
-    lits = list(_stru_literals.items())
+    names = set()
+    for t in terms:
+        names |= consts_of(t)
+    lits = []
+    for n in names:
+        c = _stru_by_name.get(n)
+        if c is None:
+            continue
+        out.append(lenU(c[0]) >= 0)
+        if c[1] is not None:
+            lits.append(c)
     if len(lits) > 1:
-        out.append(z3.Distinct(*[c for _, c in lits]))
-    for text, c in lits:
+        out.append(z3.Distinct(*[c for c, _ in lits]))
+    for c, text in lits:
         out.append(lenU(c) == len(text))
     return out
 
@@ -268,11 +285,14 @@ def _abstract_atom(t, k):
                     c = z3.Const("strlit!%d" % len(_stru_literals), sort)
                     _stru_literals[text] = c
                     _stru_consts["lit:" + text] = c
+                    _stru_by_name["strlit!%d" % (len(_stru_literals) - 1)] = (c, text)
             else:
                 c = _stru_consts.get(i)
                 if c is None:
                     c = z3.Const("stru!%d" % i, sort)
                     _stru_consts[i] = c
+                    _stru_by_name["stru!%d" % i] = (c, None)
+                    _PINNED.append(e)
             subs.append((e, c))
             continue        # do not descend into a string term
         stack.extend(e.children())
@@ -524,11 +544,10 @@ class Engine:
         else:
             # stage 2: exact on integers / reals / enums / booleans, strings abstracted away (sound for pruning:
             # an abstraction that is unsatisfiable makes the path condition unsatisfiable)
-            for c in st.defs:
-                s.add(string_abstract(c))
-            for c in cs:
-                s.add(string_abstract(c))
-            for c in abstraction_axioms():
+            abst = [string_abstract(c) for c in st.defs] + [string_abstract(c) for c in cs]
+            for c in abst:
+                s.add(c)
+            for c in abstraction_axioms(abst):
                 s.add(c)
         r = s.check()
         self.stats["feas_checks"] += 1
@@ -544,6 +563,7 @@ class Engine:
             s.add(t)
             r = s.check() == z3.sat
             self.class_cache[k] = r
+            _PINNED.append(t)
         return r
 
     # ------------------------------------------------------------------ outcome helpers
